@@ -314,6 +314,9 @@ func runTrace(fs *flag.FlagSet, prop string, seed uint64, n int, outDir, file st
 		return 2
 	}
 	shardSize := 40
+	if os.Getenv("VH_DEEP") != "" {
+		shardSize = 8
+	}
 	r := NewRng(seed)
 	var cases []Case
 	if file != "" { // replay of recorded cases
@@ -342,12 +345,16 @@ func runTrace(fs *flag.FlagSet, prop string, seed uint64, n int, outDir, file st
 		}
 		name := fmt.Sprintf("%s/cases_%03d.v", outDir, nshard)
 		imp, extra := "Check", ""
+		checkFn := "check_cases"
+		if os.Getenv("VH_DEEP") != "" {
+			checkFn = "check_cases_deep"
+		}
 		if os.Getenv("VH_CERT") != "" {
 			imp = "CertCheck"
 			extra = "Definition M2 := Eval vm_compute in cert_cases cases.\nPrint M2.\n"
 		}
 		src := "From Autog Require Import " + imp + ".\nDefinition q (n : Z) (d : positive) : Q := Qmake n d.\nDefinition cases : list (nat * tcase) := [\n" +
-			shard.String() + "].\nDefinition M := Eval vm_compute in check_cases cases.\nPrint M.\n" + extra
+			shard.String() + "].\nDefinition M := Eval vm_compute in " + checkFn + " cases.\nPrint M.\n" + extra
 		os.WriteFile(name, []byte(src), 0o644)
 		nshard++
 		inShard = 0
